@@ -31,7 +31,8 @@ class C11(LZCheckMixin, PropertyCheck):
             "overlapping copies, both LZ11 header forms, through the four entry points (LZ10, LZ13, and both through CompressionFormat), "
             "wrapped (0x13), bare and stored (type 0); every truncation of such streams (quick: of a sample), single-byte corruptions, "
             "left-over bytes, overshooting last token, random bytes with plausible headers; announced size < 1 MiB, plus LZ11 streams announcing "
-            "0xFFFFFF (plain / extended form) and 0x1000000 (extended form) and their truncations (output compared by length and FNV-64). "
+            "0xFFFFFF (plain / extended form) and 0x1000000 (extended form) and their truncations, LZ11 streams with a token section of more than "
+            "261 060 bytes (output compared by length and FNV-64). "
             "Non-trivial = the stream is well-formed and contains a back-reference, or is one of the named error classes; distinct = distinct case.")
     assumptions = ["A-std: Vec, iterators and integer casts behave as documented",
                    "the output Vec is represented by its reversed list in the model"]
@@ -149,6 +150,15 @@ class C11(LZCheckMixin, PropertyCheck):
             cases.append(Case("lzd %s 2 %s" % (entry, hexb((bytes([0x13, 1, 2, 3]) if wrap else b"") + s)), "size-boundary-16MiB"))
             # ... and the same stream cut short by one byte must be an error
             cases.append(Case("lzd %s 2 %s" % (entry, hexb((bytes([0x13, 1, 2, 3]) if wrap else b"") + s[:-1])), "size-boundary-16MiB"))
+        # --- a long token section (seeded C11-5: `token_bytes * expansion` computed in u32 overflows for LZ11 streams with more
+        #     than 261 060 token bytes): 232 056 / 240 000 literal bytes = 261 063 / 270 000 token bytes, bare and wrapped,
+        #     through the LZ13 entry, the enum and the LZ10 entry (which decodes 0x11 streams too); compact form
+        #     header + P<len>:<flag byte 00 + eight literals>
+        for nlit, entry, wrap in ((232056, "13", False), (232056, "13", True), (240000, "f13", True), (232056, "10", False), (232056, "f10", False)):
+            lits = rand_bytes(rng, 8)
+            hdr = bytes([0x11]) + nlit.to_bytes(3, "little")
+            tok = "%s+P%d:00%s" % (hexb((bytes([0x13, 9, 9, 9]) if wrap else b"") + hdr), nlit // 8 * 9, lits.hex())
+            cases.append(Case("lzd %s 2 %s" % (entry, tok), "long-token-section"))
         # --- large outputs (implementation + oracle only): long-form references up to the announced size limit
         nbig = 6 if tier == "quick" else 40
         for _ in range(nbig):
@@ -233,7 +243,7 @@ TB = ("Trusted: Coq 8.16.1 kernel (vm_compute, no native_compute), no axioms (Pr
       "ExtrOcamlBasic extraction + hand-written OCaml driver, the Rust harness and Python generators/oracles. ")
 
 MANIFEST = dict(
-    text="Theorems (Coq 8.16, closed under the global context) about a machine-level Gallina model of lz13::decompress_lz (the bounds-checked decoder that replaced nintendo_lz: repair of F14), LZ10CompressionFormat::decompress, LZ13CompressionFormat::decompress (length check = repair of F13, 0x13 wrapper, bare stream, type-0 stored form) and CompressionFormat::decompress, with usize subtractions in an arithmetic profile and checked Vec indexing: on EVERY stream accepted by a strict LZ10/LZ11 parser written from the format description the decoder returns the expansion of its tokens; EVERY legal token sequence (literals, references of every length form - LZ10 3..18, LZ11 3..65808 -, displacement 1..4096, overlapping copies, both LZ11 header forms) written down by the specification's writer is such a stream and is decoded through all entry points (wrapped, bare, enum); the stored form returns the payload; on ARBITRARY input every entry point returns Ok or Err(InvalidInput) - never a panic - identically in both profiles; empty input, fewer than 4 bytes, unknown type, every strict prefix of a well-formed stream and a reference reaching before the start of the output are errors; decompress(compress x) = x through the enum for both formats, and the formats crossed (LZ13 entry reads LZ10 output, LZ10 entry rejects the 0x13 wrapper). The model is tied to /repo on every run: extracted model vs real library (debug and release) on bounded-exhaustive token sequences, random legal sequences with every form, every truncation of sampled streams, corruptions, left-over bytes, wrong sizes, random bytes; an independent Python decoder/classifier judges every implementation output.",
+    text="Theorems (Coq 8.16, closed under the global context) about a machine-level Gallina model of lz13::decompress_lz (the bounds-checked decoder that replaced nintendo_lz: repair of F14), LZ10CompressionFormat::decompress, LZ13CompressionFormat::decompress (length check = repair of F13, 0x13 wrapper, bare stream, type-0 stored form) and CompressionFormat::decompress, with usize subtractions in an arithmetic profile and checked Vec indexing: on EVERY stream accepted by a strict LZ10/LZ11 parser written from the format description the decoder returns the expansion of its tokens; EVERY legal token sequence (literals, references of every length form - LZ10 3..18, LZ11 3..65808 -, displacement 1..4096, overlapping copies, both LZ11 header forms) written down by the specification's writer is such a stream and is decoded through all entry points (wrapped, bare, enum); the stored form returns the payload; on ARBITRARY input every entry point returns Ok or Err(InvalidInput) - never a panic - identically in both profiles; empty input, fewer than 4 bytes, unknown type, every strict prefix of a well-formed stream and a reference reaching before the start of the output are errors; every parser-accepted stream is decoded through every entry point (bare, wrapped, enum); decompress(compress x) = x through the enum for both formats whenever compress returns Ok (it does below 2^24 / 2^32 bytes and returns Err(InputTooLarge) above: repair of F21), and the formats crossed (LZ13 entry reads LZ10 output, LZ10 entry rejects the 0x13 wrapper). The model is tied to /repo on every run: extracted model vs real library (debug and release) on bounded-exhaustive token sequences, random legal sequences with every form, every truncation of sampled streams, corruptions, left-over bytes, wrong sizes, random bytes; an independent Python decoder/classifier judges every implementation output.",
     note=TB + "Modelled, not verified (A-std): Vec, iterators, integer casts, 64-bit usize; the output Vec is a reversed list in the model. Streams whose last token overshoots the announced size or that carry bytes after it are outside the property's named classes: only 'no panic' is demanded and model = implementation is compared. notes/lz.md lists 14 mutations of /repo, all reported by the quick check.",
     technique='Coq proof (decoder simulates the specification-side parser; totality by induction; prefix argument for truncation) + extracted-model differential check (debug and release builds) + independent Python reference decoder/classifier as oracle',
     ref='DESIGN.md section 4 (C11); notes/lz.md')
